@@ -258,7 +258,10 @@ func init() {
 				key := rng.Bytes(10 + rng.Intn(40))
 				enc := ref.Base32EncodeNoPad(key)
 				badSecret := enc[:3] + "1" + enc[4:]
+				// undecodable secret texts that contain the true secret intact (an error that echoes its input leaks it)
+				embed := []string{enc + "!", "secret=" + enc, "otpauth://totp/100%:acc?secret=" + enc + "&digits=6", "otpauth://totp/I:a?secret=" + enc + "\x7f", enc + " " + enc, "\x7f" + enc, enc + "%", "key:" + enc, enc + "=" + enc, "[" + enc + "]"}
 				for _, op := range []string{"GenerateHOTP", "GenerateTOTP", "GenerateOCRA", "DecodeSecret"} {
+					gf = append(gf, genFailCase{Op: op, KeyHex: hexs(key), Secret: embed[(i+len(op))%len(embed)], Digits: 6, Algo: 0})
 					gf = append(gf, genFailCase{Op: op, KeyHex: hexs(key), Secret: badSecret, Digits: 6, Algo: 0})
 					gf = append(gf, genFailCase{Op: op, KeyHex: hexs(key), Secret: enc, Digits: uint8(rng.Intn(256)), Algo: uint8(rng.Intn(256))})
 				}
